@@ -1,5 +1,9 @@
-import re,sys
-src=open('/work/w4c04order/lean/CookModel/Lemmas/SpansEv.lean').read().split('\n')
+# Regenerates lean/CookModel/Lemmas/SpansFrag.lean (C04 row 5b): the sweep part is derived from Lemmas/SpansEv.lean (the document-level part is literal text below):
+# the declarations that depend on `TextOK` are copied with the suffix `O` and `TextOKO` (TextOK + fragment order).
+# Not part of ./check; run by hand after a change of SpansEv.lean:  python3 translators/gen_spans_frag.py
+import re,sys,os
+L=os.path.join(os.path.dirname(os.path.abspath(__file__)),'..','lean','CookModel','Lemmas')
+src=open(os.path.join(L,'SpansEv.lean')).read().split('\n')
 # split into chunks at column-0 starts
 starts=[i for i,l in enumerate(src) if re.match(r'^(theorem |def |structure |abbrev |/-- |/-! |variable |end |namespace |set_option|import|instance|/-$|/-\s)',l)]
 chunks=[]
@@ -63,12 +67,12 @@ for r in tainted_last:
     body=re.sub(r'\.'+re.escape(r)+r'\b',  '.'+r+'O',body)
 # RunIn.text -> RunIn.textO for the known receivers
 body=re.sub(r'\b(hr|hr1|hr2|hunit|hname)\.text\b',r'\1.textO',body)
-open('/tmp/w4c04/body.lean','w').write(body)
+BODY=body
 print(sum(copy),'decls copied of',len(decls),file=sys.stderr)
 print(len(body.split('\n')),'lines',file=sys.stderr)
 
 # --- post-processing and assembly
-body=open('/tmp/w4c04/body.lean').read()
+body=BODY
 # undo the generic '.bound' rename, then redo it only after the declaration of GE.bound
 body=body.replace('.boundO','.bound')
 k=body.index('theorem GE.bound')
@@ -319,4 +323,4 @@ theorem TextOrd.frag_in_span {t : Text} (h : TextOrd t) : ∀ f ∈ t.frags, t.s
 
 end Cook
 '''
-open('/work/w4c04order/lean/CookModel/Lemmas/SpansFrag.lean','w').write(header+body+footer)
+open(os.path.join(L,'SpansFrag.lean'),'w').write(header+body+footer)
